@@ -118,7 +118,7 @@ pub fn judge_owned(x: &Vec<u8>, st: &mut Stats) -> Verdict {
                     Ok(o) => o,
                     Err(_) => return Ok(()),
                 };
-                if !(o == *h && *h == o) || o.header != h.header || o.addresses != h.addresses || !matches!(o.header, Cow::Owned(_)) {
+                if !(o == *h && *h == o) || (o != *h) || (*h != o) || o.header != h.header || o.addresses != h.addresses || !matches!(o.header, Cow::Owned(_)) {
                     return Err(Fail::new("owned-differs:v1", shape(x), entry, "owned == borrowed (both ways), same text and addresses, Cow::Owned", format!("borrowed {:?} owned {:?}", h, o)));
                 }
                 let views = crate::engine::guard(|| (h.protocol().to_string(), h.addresses_str().to_string(), h.to_string(), o.protocol().to_string(), o.addresses_str().to_string(), o.to_string()));
@@ -129,7 +129,10 @@ pub fn judge_owned(x: &Vec<u8>, st: &mut Stats) -> Verdict {
                 }
                 // clone and clone_from (onto a longer and onto a shorter owned header) give copies equal to the original
                 let long_text = format!("PROXY UNKNOWN {}\r\n", "z".repeat(90));
-                for target in [ppp::v1::Header::new("PROXY UNKNOWN\r\n", ppp::v1::Addresses::Unknown).to_owned(), ppp::v1::Header::new(long_text.as_str(), ppp::v1::Addresses::Unknown).to_owned(), o.clone()] {
+                // ... also onto a header that already carries the SAME addresses under another spelling (the canonical line)
+                let canonical_text = h.addresses.to_string();
+                let same_addresses = ppp::v1::Header::new(canonical_text.as_str(), h.addresses).to_owned();
+                for target in [ppp::v1::Header::new("PROXY UNKNOWN\r\n", ppp::v1::Addresses::Unknown).to_owned(), ppp::v1::Header::new(long_text.as_str(), ppp::v1::Addresses::Unknown).to_owned(), o.clone(), same_addresses] {
                     let mut t2: ppp::v1::Header<'_> = target;
                     t2.clone_from(h);
                     if !(t2 == *h && *h == t2) || t2.header != h.header || t2.addresses != h.addresses || t2.to_string() != h.to_string() {
@@ -171,7 +174,7 @@ pub fn judge_owned(x: &Vec<u8>, st: &mut Stats) -> Verdict {
                     Ok(o) => o,
                     Err(_) => return Ok(()),
                 };
-                let eq = o == *h && *h == o && o.header == h.header && o.addresses == h.addresses && o.command == h.command && o.protocol == h.protocol && o.version == h.version;
+                let eq = o == *h && *h == o && !(o != *h) && !(*h != o) && o.header == h.header && o.addresses == h.addresses && o.command == h.command && o.protocol == h.protocol && o.version == h.version;
                 if !eq || !matches!(o.header, Cow::Owned(_)) {
                     return Err(Fail::new("owned-differs:v2", shape2(x), entry, "owned == borrowed (both ways), same fields, Cow::Owned", format!("borrowed len {} owned len {}", h.header.len(), o.header.len())));
                 }
@@ -212,7 +215,7 @@ pub fn judge_owned(x: &Vec<u8>, st: &mut Stats) -> Verdict {
                 if let Ok(items) = crate::engine::guard(|| h.tlvs().take(2000).collect::<Vec<_>>()) {
                     for it in items.into_iter().flatten() {
                         let ot = it.to_owned();
-                        if !(ot == it && it == ot) || ot.kind != it.kind || ot.value != it.value || !matches!(ot.value, Cow::Owned(_)) || ot.len() != it.len() || ot.is_empty() != it.is_empty() {
+                        if !(ot == it && it == ot) || (ot != it) || (it != ot) || ot.kind != it.kind || ot.value != it.value || !matches!(ot.value, Cow::Owned(_)) || ot.len() != it.len() || ot.is_empty() != it.is_empty() {
                             return Err(Fail::new("owned-differs:tlv", shape2(x), "TypeLengthValue::to_owned()", "owned TLV == borrowed TLV, Cow::Owned", format!("borrowed {:?} owned {:?}", it.kind, ot.kind)));
                         }
                         let mut t3 = ppp::v2::TypeLengthValue::new(0xEEu8, &[1u8, 2, 3, 4, 5, 6, 7, 8, 9][..]).to_owned();
@@ -318,12 +321,13 @@ pub fn run(r: &mut Runner) -> &'static str {
         .into();
     r.assumptions.push("B's 'remains valid after the buffer is dropped' is also guaranteed by the type system in a crate without unsafe; the check exercises it all the same".into());
     let n = r.n(300_000, 8_000_000);
-    r.random("c16.agree", n, 200, &gen_str, &judge_agree);
+    r.random("c16.agree", n, 200, &gen_str, &|x: &Vec<u8>, st: &mut Stats| crate::engine::in_arena(x, |v| judge_agree(v, st)));
     // the same check over chains of related inputs judged back to back on one thread (history independence)
     let n = r.n(40000, 1000000);
     r.random("c16.chains", n, 260, &|t| crate::gen::gen_chain(t, &gen_str), &|c: &crate::engine::Chain, st: &mut Stats| {
+        // every member is parsed from this thread's reusable read buffer (same address, new contents)
         for x in &c.0 {
-            judge_agree(x, st)?;
+            crate::engine::in_arena(x, |v| judge_agree(v, st))?;
         }
         Ok(())
     });
